@@ -59,6 +59,9 @@ def energy_force_pairing(ctx):
 
 def run(ctx):
     rep = ctx.rep
+    rep.rule("C07.R9", "force elements and interactions do not modify in place what (possibly memoised) subsystem kinematics hand out (K18): energy, force and compliance residual stay functions of the state", 5)
+    from .. import cachepurity as _cp
+    _cp.report(ctx, "C07.R9", ("cardillo/interactions/", "cardillo/force_laws/", "cardillo/forces/", "cardillo/actuators/"), check_returns=False, floor_note=False)
     rep.rule("C07.R1", "E_pot dispatch totality", 5)
     rep.rule("C07.R2", "attribute resolution / callable misuse / helper arity under E_pot", 8)
     rep.rule("C07.R3", "energy atoms are covered by the generalized force", 3)
@@ -254,3 +257,14 @@ NEUTRAL = [
          old="class B_Force:\n", new="class B_Force(Force):\n    E_pot = None\n"),
     dict(id="c07-n-r5", canary=True, what="Force lambdas rewritten with keyword arguments (same point)", file="cardillo/forces/force.py",
          old="        self.r_OP = lambda t, q: subsystem.r_OP(t, q, xi, B_r_CP)\n", new="        self.r_OP = lambda t, q: subsystem.r_OP(t, q, xi=xi, B_r_CP=B_r_CP)\n"),]
+TPI_ = "cardillo/interactions/two_point_interaction.py"
+MUTANTS += [
+    dict(id="c07-r9-seed", canary=True, what="[seeded by sub-agent] TwoPointInteraction: relative velocity formed in place on the array handed out by subsystem2.v_P (RigidBody memoises it)", file=TPI_,
+         old="        return self._n(t, q) @ (self.v_P2(t, q, u) - self.v_P1(t, q, u))\n",
+         new="        v_P1P2 = self.v_P2(t, q, u)\n        v_P1P2 -= self.v_P1(t, q, u)\n        return self._n(t, q) @ v_P1P2\n", expect="C07.R9"),
+]
+NEUTRAL += [
+    dict(id="c07-n-r9", canary=True, what="TwoPointInteraction: relative velocity formed in place on a copy", file=TPI_,
+         old="        return self._n(t, q) @ (self.v_P2(t, q, u) - self.v_P1(t, q, u))\n",
+         new="        v_P1P2 = self.v_P2(t, q, u).copy()\n        v_P1P2 -= self.v_P1(t, q, u)\n        return self._n(t, q) @ v_P1P2\n"),
+]
